@@ -593,3 +593,55 @@ Qed.
 Theorem key_eq_hm_is_key_eq : forall (H : list token -> N) a b, wf_key a -> wf_key b ->
   key_eq_hm (key_hash H) a b = key_eq a b.
 Proof. intros H a b. apply (key_eq_hm_upto H (ksize a)). lia. Qed.
+
+(* ------------------------------------------------------------------ set(x): all values null, no default *)
+Lemma sset_values {V} (slot : key -> key -> bool) (P : V -> Prop) : forall (s : store V) k v,
+  P v -> (forall k' v', In (k', v') s -> P v') -> forall k' v', In (k', v') (sset slot k v s) -> P v'.
+Proof.
+  induction s as [ | [k0 w0] s IH]; intros k v Hv Hs k' v' Hin; cbn in Hin.
+  - destruct Hin as [Hq | []]. inversion Hq; subst. assumption.
+  - destruct (slot k k0); cbn in Hin.
+    + destruct Hin as [Hq | Hin]; [inversion Hq; subst; assumption | apply (Hs k' v'); cbn; auto].
+    + destruct Hin as [Hq | Hin]; [inversion Hq; subst; apply (Hs k' v'); cbn; auto | ].
+      apply (IH k v Hv) with (k' := k'); auto. intros; eapply Hs; cbn; eauto.
+Qed.
+
+Lemma sextend_values {V} (slot : key -> key -> bool) (P : V -> Prop) : forall (l : list (key * V)) (s : store V),
+  (forall k v, In (k, v) l -> P v) -> (forall k v, In (k, v) s -> P v) ->
+  forall k v, In (k, v) (sextend slot s l) -> P v.
+Proof.
+  unfold sextend. induction l as [ | [k0 v0] l IH]; intros s Hl Hs; cbn; [assumption | ].
+  apply IH; [intros; eapply Hl; cbn; eauto | ]. apply sset_values; [eapply Hl; cbn; eauto | assumption].
+Qed.
+
+Theorem set_dict_all_null : forall (slot : key -> key -> bool) V (vnull : V) (l : list key),
+  snd (set_dict slot vnull l) = None /\
+  (forall k v, In (k, v) (fst (set_dict slot vnull l)) -> v = vnull) /\
+  (forall k v, In (k, v) (fst (set_dict slot vnull l)) -> In k l).
+Proof.
+  intros slot V vnull l. unfold set_dict, from_pairs. cbn [fst snd]. repeat split.
+  - apply (sextend_values slot (fun v => v = vnull)); [ | intros k v []].
+    intros k v Hin. apply in_map_iff in Hin. destruct Hin as [x [Hq _]]. inversion Hq. reflexivity.
+  - intros k v Hin.
+    assert (Hg : forall (p : list (key * V)) (s : store V) k v, In (k, v) (sextend slot s p) ->
+                 In k (map fst p) \/ In k (map fst s)).
+    { unfold sextend. induction p as [ | [k0 v0] p IH]; intros s k1 v1 H1; cbn in *; [right; apply (in_map fst) in H1; exact H1 | ].
+      destruct (IH _ _ _ H1) as [ | Hs]; [auto | ].
+      apply in_map_iff in Hs. destruct Hs as [[k2 v2] [Hq Hs]]. cbn in Hq. subst k2.
+      clear - Hs. induction s as [ | [k3 v3] s IHs]; cbn in Hs.
+      - destruct Hs as [Hq | []]. inversion Hq. auto.
+      - destruct (slot k0 k3); cbn in Hs.
+        + destruct Hs as [Hq | Hs]; [inversion Hq; subst; right; cbn; auto | right; cbn; right; apply (in_map fst) in Hs; exact Hs].
+        + destruct Hs as [Hq | Hs]; [inversion Hq; subst; right; cbn; auto | ].
+          destruct (IHs Hs) as [ | ]; [auto | right; cbn; auto]. }
+    destruct (Hg _ _ _ _ Hin) as [H1 | []]. rewrite map_map in H1. cbn in H1. rewrite map_id in H1. exact H1.
+Qed.
+
+Theorem set_dict_refines : forall (H : list token -> N) V (vnull : V) (l : list key), Forall wf_key l ->
+  set_dict (hm_slot (key_hash H)) vnull l = set_dict key_eq vnull l.
+Proof.
+  intros H V vnull l Hl. unfold set_dict. f_equal.
+  apply (from_pairs_ext wf_key _ key_eq (hm_slot_key_eq H)).
+  intros k v Hin. apply in_map_iff in Hin. destruct Hin as [x [Hq Hin]]. inversion Hq; subst.
+  rewrite Forall_forall in Hl. auto.
+Qed.
